@@ -6,6 +6,7 @@
 package c02
 
 import (
+	"verifharness/ghost"
 	"verifharness/sym"
 
 	"github.com/blinklabs-io/gouroboros/cbor"
@@ -15,13 +16,70 @@ import (
 )
 
 var Registry = map[string]func(){
-	"Heads":      Heads,
-	"Stream":     Stream,
-	"Lists":      Lists,
-	"Address":    Address,
-	"Kes":        Kes,
-	"Segment":    Segment,
-	"Diagnostic": Diagnostic,
+	"Heads":        Heads,
+	"Stream":       Stream,
+	"Lists":        Lists,
+	"Address":      Address,
+	"Kes":          Kes,
+	"Segment":      Segment,
+	"Diagnostic":   Diagnostic,
+	"ByronOffsets": ByronOffsets,
+}
+
+// ByronOffsets: the offset extractor on Byron-shaped blocks [header, [tx_payload, ssc, dlg,
+// upd], extra] whose transaction payload holds 1..2 "pairs" of every shape a peer can send:
+// definite or indefinite arrays of 0, 1 or 2 items (symbolic selectors). It returns ranges or
+// an error, never panics; ranges it returns lie inside the block.
+func ByronOffsets() {
+	n := sym.Param("pairs")
+	data := sym.Bytes("blk", 1+1+1+1+n*5+1+3+1+1)
+	off := ghost.PutHead(data, 0, 4, ghost.FormImm, 3)
+	off += ghost.Fixed(data, off, "hdr", 0)
+	bodyStart := off
+	off += ghost.PutHead(data, off, 4, ghost.FormImm, 4)
+	payloadStart := off
+	payloadForm := ghost.FormImm
+	if sym.Bool("payload_indefinite") {
+		payloadForm = ghost.FormIndef
+	}
+	off += ghost.PutHead(data, off, 4, payloadForm, n)
+	for i := 0; i < n; i++ {
+		name := "pair" + string(rune('0'+i))
+		k := int(sym.U8(name + "_items"))
+		sym.Assume(k <= 2)
+		items := 0
+		for c := 0; c <= 2; c++ { // concrete on each path
+			if k == c {
+				items = c
+			}
+		}
+		form := ghost.FormImm
+		if sym.Bool(name + "_indefinite") {
+			form = ghost.FormIndef
+		}
+		r, _ := ghost.PutLeafArray(data, off, form, items, name+"_", 0)
+		off += r.Len
+	}
+	if payloadForm == ghost.FormIndef {
+		sym.Assume(data[off] == 0xff)
+		off++
+	}
+	ghost.Tie(data, payloadStart, off-payloadStart)
+	for _, nm := range []string{"ssc", "dlg", "upd"} {
+		off += ghost.Fixed(data, off, nm, 0)
+	}
+	ghost.Tie(data, bodyStart, off-bodyStart)
+	off += ghost.Fixed(data, off, "extra", 0)
+	ghost.Tie(data, 0, off)
+	blk := data[:off]
+	offs, err := common.ExtractTransactionOffsets(blk)
+	sym.Reach("done")
+	if err == nil && offs != nil {
+		sym.Reach("ranges")
+		for _, loc := range offs.Transactions {
+			sym.Assert(int(loc.Body.Offset+loc.Body.Length) <= len(blk) && int(loc.Witness.Offset+loc.Witness.Length) <= len(blk), "reported ranges lie inside the block")
+		}
+	}
 }
 
 // Diagnostic: the hand-written diagnostic tree parser on arbitrary bytes: it returns a tree or
